@@ -107,10 +107,16 @@ class Recorder:
         self.budget_s = float(cfg.get('budget_s', 1e9))
         self.out_of_time = False
         self.gc_every = int(getattr(mod, 'GC_EVERY', 25))
+        self.journal = cfg.get('_journal') if cfg.get('journal') else None
 
     # -- executing one case ------------------------------------------------
     def execute(self, case):
         out = Out()
+        if self.journal:
+            # last case started, for the driver to pick up if the
+            # interpreter dies inside the code under test
+            with open(self.journal, 'w') as f:
+                json.dump(case, f)
         try:
             self.mod.run_case(case, self.cfg, out)
         except Violation:
@@ -158,7 +164,8 @@ class Recorder:
 
     def write_replay(self, case, fails, final=True):
         sig, msg = fails[0]
-        d = os.path.join(VERIF, 'replays', self.prop)
+        d = os.path.join(os.environ.get('VERIF_REPLAY_DIR') or
+                         os.path.join(VERIF, 'replays'), self.prop)
         os.makedirs(d, exist_ok=True)
         name = '%s-%s-%s.json' % (
             self.cfg.get('name', 'cfg'),
